@@ -51,3 +51,81 @@ Proof.
 Qed.
 
 Print Assumptions export_jackknife_tie.
+
+(* ------------------------------------------------------------------ import_jackknife: samples = jacks[1:] @ (ones - (L - 1) identity) *)
+Open Scope Q_scope.
+Lemma combine_repeat_map {A B} (x : A) (f : nat -> B) n : forall s,
+  combine (repeat x n) (map f (seq s n)) = map (fun i => (x, f i)) (seq s n).
+Proof. induction n as [|n IH]; intro s; simpl; [reflexivity|]. rewrite IH. reflexivity. Qed.
+
+Definition prjrow (L : nat) (i : nat) : list Q :=
+  arr_zip Qminus (repeat 1 L) (map (fun x => inject_Z (Z.of_nat L - 1) * x) (map (fun j => if Nat.eqb i j then 1 else 0) (seq 0 L))).
+
+Lemma nth_arr_zip_minus a : forall b j, List.length a = List.length b -> (j < List.length a)%nat ->
+  nth j (arr_zip Qminus a b) 0 = nth j a 0 - nth j b 0.
+Proof.
+  induction a as [|x a IH]; intros [|y b] j Hl Hj; simpl in *; try lia. destruct j as [|j]; [reflexivity|]. apply IH; lia.
+Qed.
+Lemma arr_zip_length (f : Q -> Q -> Q) a : forall b, List.length a = List.length b -> List.length (arr_zip f a b) = List.length a.
+Proof. induction a as [|x a IH]; intros [|y b] H; simpl in *; try lia. rewrite IH; lia. Qed.
+Lemma nth_repeat_one L j : (j < L)%nat -> nth j (repeat (1 : Q) L) 0 = 1.
+Proof. revert j; induction L as [|L IH]; intros [|j] H; simpl; try lia; [reflexivity|apply IH; lia]. Qed.
+
+Lemma prjrow_entry L i j : (j < L)%nat -> nth j (prjrow L i) 0 == prj_entry L i j.
+Proof.
+  intro Hj. unfold prjrow, prj_entry. rewrite nth_arr_zip_minus by (rewrite ?repeat_length, ?map_length, ?seq_length; lia).
+  rewrite nth_repeat_one by exact Hj. rewrite map_map.
+  rewrite (nth_indep _ 0 ((fun x => inject_Z (Z.of_nat L - 1) * (if Nat.eqb i x then 1 else 0)) O)) by (rewrite map_length, seq_length; lia).
+  rewrite (map_nth (fun x => inject_Z (Z.of_nat L - 1) * (if Nat.eqb i x then 1 else 0))). rewrite seq_nth by lia. cbn [Nat.add].
+  apply Qplus_comp; [reflexivity|]. apply Qopp_comp. apply Qmult_comp; [|reflexivity].
+  unfold Qminus, Qplus, Qopp, inject_Z, Qeq. simpl. lia.
+Qed.
+
+Lemma sum_rows j (G : nat -> Q) (F : nat -> list Q) (js : list Q) : forall (is : list nat),
+  (forall i, In i is -> nth j (F i) 0 == G i) ->
+  Qsum (map (fun p => fst p * nth j (snd p) 0) (combine js (map F is))) == Qsum (map (fun p => snd p * G (fst p)) (combine is js)).
+Proof.
+  induction js as [|v js IH]; intros [|i is] H; try reflexivity.
+  cbn [map combine].
+  etransitivity; [apply Qsum_cons|]. etransitivity; [|symmetry; apply Qsum_cons].
+  apply Qplus_comp; [cbn [fst snd]; rewrite (H i) by (left; reflexivity); reflexivity|].
+  apply IH. intros i' Hi'. apply H. right. exact Hi'.
+Qed.
+
+Theorem import_jackknife_samples_tie j0 js :
+  exists r, import_jackknife_samples (j0 :: js) = Ok r /\ Forall2 Qeq r (import_samples_mat (j0 :: js)).
+Proof.
+  unfold import_jackknife_samples. cbv zeta.
+  set (L := List.length js).
+  assert (HL : (zlen (j0 :: js) - 1)%Z = Z.of_nat L) by (unfold zlen, L; simpl List.length; lia).
+  rewrite HL. unfold py_mat_ones, py_mat_identity.
+  destruct ((Z.of_nat L <? 0)%Z) eqn:E; [lia|]. cbn [orb bind]. rewrite Nat2Z.id.
+  assert (Hsub : py_mat_sub (repeat (repeat 1 L) L)
+                   (mat_scale (inject_Z (Z.of_nat L - 1)) (map (fun i => map (fun j => if Nat.eqb i j then 1 else 0) (seq 0 L)) (seq 0 L)))
+                 = Ok (map (prjrow L) (seq 0 L))).
+  { unfold py_mat_sub, mat_scale. rewrite map_map. rewrite combine_repeat_map.
+    replace (mat_shape_eq (repeat (repeat 1 L) L) (map (fun x => map (fun x0 => inject_Z (Z.of_nat L - 1) * x0) (map (fun j => if Nat.eqb x j then 1 else 0) (seq 0 L))) (seq 0 L))) with true.
+    - rewrite map_map. reflexivity.
+    - symmetry. unfold mat_shape_eq. rewrite repeat_length, map_length, seq_length, Nat.eqb_refl. cbn [andb].
+      rewrite combine_repeat_map. apply forallb_forall. intros p Hp. apply in_map_iff in Hp. destruct Hp as [i [<- _]]. cbn [fst snd].
+      rewrite repeat_length, !map_length, seq_length. apply Nat.eqb_refl. }
+  rewrite Hsub. cbn [bind].
+  assert (Hsl : py_slice (j0 :: js) 1 (zlen (j0 :: js)) = js).
+  { unfold py_slice. assert (Hz : zlen (j0 :: js) = Z.of_nat (S L)) by reflexivity. rewrite Hz.
+    assert (C1 : clip_index (Z.of_nat (S L)) 1 = 1%Z) by (unfold clip_index; destruct (1 <? 0)%Z eqn:E1; lia).
+    assert (C2 : clip_index (Z.of_nat (S L)) (Z.of_nat (S L)) = Z.of_nat (S L)) by (unfold clip_index; destruct (Z.of_nat (S L) <? 0)%Z eqn:E2; lia).
+    rewrite C1, C2. replace (Z.to_nat (Z.of_nat (S L) - 1)) with L by lia. change (Z.to_nat 1) with 1%nat.
+    cbn [skipn]. apply firstn_all. }
+  rewrite Hsl. unfold py_vecmat. rewrite map_length, seq_length. fold L. rewrite Nat.eqb_refl. cbn [bind].
+  eexists. split; [reflexivity|].
+  unfold import_samples_mat. cbn [tl]. fold L.
+  assert (Hcols : match map (prjrow L) (seq 0 L) with [] => 0%nat | r :: _ => List.length r end = L).
+  { destruct L as [|L']; [reflexivity|]. cbn [seq map]. unfold prjrow. rewrite arr_zip_length.
+    - apply repeat_length.
+    - rewrite repeat_length, !map_length, seq_length. reflexivity. }
+  rewrite Hcols.
+  apply Forall2_map_Qeq. intros j Hj. apply in_seq in Hj. unfold vecmat_col.
+  apply (sum_rows j (fun i => prj_entry L i j) (prjrow L) js (seq 0 L)). intros i _. apply prjrow_entry. lia.
+Qed.
+
+Print Assumptions import_jackknife_samples_tie.
